@@ -603,7 +603,8 @@ void flatcc_json_printer_ ## TN ## _field(flatcc_json_printer_t *ctx,       \
                                                                             \
     if (p) {                                                                \
         x = flatbuffers_ ## TN ## _read_from_pe(p);                         \
-        if (x == v && ctx->skip_default) {                                  \
+        /* bit pattern, not ==: -0.0 is not the default 0.0 */              \
+        if (ctx->skip_default && 0 == memcmp(&x, &v, sizeof(x))) {          \
             return;                                                         \
         }                                                                   \
     } else {                                                                \
@@ -649,7 +650,8 @@ void flatcc_json_printer_ ## TN ## _enum_field(flatcc_json_printer_t *ctx,  \
                                                                             \
     if (p) {                                                                \
         x = flatbuffers_ ## TN ## _read_from_pe(p);                         \
-        if (x == v && ctx->skip_default) {                                  \
+        /* bit pattern, not ==: -0.0 is not the default 0.0 */              \
+        if (ctx->skip_default && 0 == memcmp(&x, &v, sizeof(x))) {          \
             return;                                                         \
         }                                                                   \
     } else {                                                                \
